@@ -5,6 +5,7 @@
      harness, emitted by the calling thread:  CallW t items  (before the write call)
                                               CallR t c / RetR t val        (get at SeqNo::MAX)
                                               SOpen t vid inst / SRead t vid c val / SClose t vid
+                                              SCall t ... ScanRet t cells   (one plain scan)
                                               Final c val   (after all threads joined)   Reset
    Version upgrades inside lsm-tree are not hooked: UDraw / UBump are silent steps, taken only
    when the next logged event requires them (a drawn seqno above the model's counter, a snapshot
@@ -162,6 +163,19 @@ TraceNext ==
           \* (downstream of the D7 signature a view is not frozen any more: waived)
           /\ (kf7 \/ \E v \in views : v.vid = Ev.vid /\ ValAt(Cell(Ev.c), v.inst) = Ev.val)
           /\ Keep(<<vars, pendop, rd, okf, vopen>>)
+       \* ---- a plain scan (Keyspace::iter / range / prefix, no snapshot object): the cells it
+       \* returned must be the committed state at ONE instant the visible seqno had between the call
+       \* (SCall) and the return - or the instant a fully applied writer has published already
+       \* although its WPublish event is not logged yet (the hook fires after the atomic store)
+       \/ /\ Ev.ev = "ScanRet" /\ Consume
+          /\ LET insts == vopen[Ev.t] \cup
+                          {w[t2].s + 1 : t2 \in {x \in Threads : /\ w[x].st \in {"drawn", "applying"}
+                                                                /\ Len(w[x].items) > 0
+                                                                /\ w[x].ai = Len(w[x].items)}}
+             IN kf7 \/ \E i \in insts : \A n \in 1..Len(Ev.cells) :
+                          ValAt(Cell(Ev.cells[n]), i) = Ev.cells[n][3]
+          /\ vopen' = [vopen EXCEPT ![Ev.t] = {}]
+          /\ Keep(<<vars, pendop, rd, okf>>)
        \/ /\ Ev.ev = "SClose" /\ Consume
           /\ views' = {v \in views : v.vid # Ev.vid}
           /\ Keep(<<seqno, visible, lock, w, pcnt, ents, pend, nup, nviews, seenv, kf7, pendop, rd, okf, vopen>>)
